@@ -383,6 +383,15 @@ func (r *run) applyContract(fr *frame, st *State, ct *Contract, sig *types.Signa
 	for i, n := range names {
 		env.extra[n] = SVal{Term: args[i].Term, Sort: args[i].Sort, Type: args[i].Type}
 		if args[i].Loc != nil {
+			// A pointer to a chain of first (embedded) fields of a heap object has the address of
+			// the object itself. It may be handed to an assumed callee that writes nothing (the
+			// callee can then only name it through spec functions); anything else stays out of the
+			// subset, because field writes through the interior pointer are not modelled.
+			if root := firstFieldRoot(args[i].Loc); root != "" && ct.Trusted && ct.AssignsSet && len(ct.Assigns) == 0 {
+				env.extra[n] = SVal{Term: root, Sort: "Int", Type: args[i].Type}
+				args[i] = Val{Term: root, Sort: "Int", Type: args[i].Type}
+				continue
+			}
 			r.unsupported("static pointer passed to contracted callee %s", ct.Key)
 		}
 	}
@@ -1168,4 +1177,23 @@ func hasFmtMethod(t types.Type) bool {
 		}
 	}
 	return false
+}
+
+// firstFieldRoot: for a location that is field 0 of field 0 ... of the struct a heap pointer
+// points to, the term of that pointer ("" otherwise).
+func firstFieldRoot(l *Loc) string {
+	for l != nil {
+		if l.Field != 0 {
+			return ""
+		}
+		switch l.Kind {
+		case LHeapField:
+			return l.Ptr
+		case LField:
+			l = l.Base
+		default:
+			return ""
+		}
+	}
+	return ""
 }
